@@ -308,6 +308,11 @@ def fcs(ctx):
         R.check('to_bytes(with_fcs=with_fcs)' in norm(msp), rule, 'bumble.l2cap.ChannelManager.send_pdu | forwards flag', 'with_fcs forwarded to L2CAP_PDU.to_bytes', 'with_fcs not forwarded', p.loc(msp))
 
 
+def re_findall(a):
+    import re
+    return re.findall(r'State\.(\w+)', a)
+
+
 def config_fsm(ctx):
     R, p = ctx.r, ctx.p
     rule = 'C08.config-fsm'
@@ -331,6 +336,41 @@ def config_fsm(ctx):
                 emits = any(isinstance(x, ast.Call) and dotted(x.func) == 'self.emit' and x.args and norm(x.args[0]) == 'self.EVENT_OPEN' for s in rest for x in ast.walk(s))
                 R.check(settles and emits, rule, f'{CC}.{hname} | -> OPEN #{n_open}', 'transition to OPEN resolves connection_result and emits open', 'a transition to OPEN leaves the connecting caller waiting (connection_result not resolved) or does not announce the channel', p.loc(c))
     R.check(n_open == 2, rule, f'{CC} | OPEN transitions', 'request side and response side', f'{n_open} OPEN transitions found in the configure handlers (expected 2)')
+
+    # transition table of the configuration exchange (the state names say what is still awaited)
+    TABLE = {
+        'on_configure_request': {'WAIT_CONFIG': 'WAIT_CONFIG_RSP', 'WAIT_CONFIG_REQ': 'OPEN', 'WAIT_CONFIG_REQ_RSP': 'WAIT_CONFIG_RSP'},
+        'on_configure_response': {'WAIT_CONFIG_REQ_RSP': 'WAIT_CONFIG_REQ', 'WAIT_CONFIG_RSP': 'OPEN', 'WAIT_CONTROL_IND': 'OPEN'},
+    }
+    from .. import sym
+    for hname, table in TABLE.items():
+        fnh = ci.methods.get(hname)
+        if fnh is None:
+            continue
+        got = {}
+
+        class T(sym.Sym):
+            def on_event(self, node, extra, facts, store):
+                if isinstance(node, ast.Call) and dotted(node.func) == 'self._change_state' and node.args:
+                    return norm(node.args[0]).split('.')[-1]
+                return extra
+        res = paths.run(fnh, T(fact_filter=lambda t: 'self.state' in t, store_filter=lambda t: False), sym.Sym.init())
+        for k_, facts, store, last, w in sym.exits(res):
+            if last is None:
+                continue
+            eq_true = [re_findall(a_)[0] for a_, t_ in facts.items() if t_ and ' == ' in a_ and 'self.state' in a_ and re_findall(a_)]
+            eq_false = {re_findall(a_)[0] for a_, t_ in facts.items() if not t_ and ' == ' in a_ and 'self.state' in a_ and re_findall(a_)}
+            in_true = [set(re_findall(a_)) for a_, t_ in facts.items() if t_ and ' in ' in a_ and 'self.state' in a_]
+            if eq_true:
+                cands = set(eq_true)
+            elif in_true:
+                cands = set.intersection(*in_true) - eq_false
+            else:
+                cands = set()
+            for st_ in cands:
+                got.setdefault(st_, set()).add(last)
+        for st_, tgt in sorted(table.items()):
+            R.check(got.get(st_) == {tgt}, rule, f'{CC}.{hname} | {st_} ->', f'{st_} -> {tgt}', f'{hname} moves a channel from {st_} to {sorted(got.get(st_, []))} (expected {tgt}): when the peer\'s response and request arrive in the other order the two ends do not both reach OPEN', p.loc(fnh))
     fn = ci.methods.get('on_configure_request')
     if fn is not None:
         mism = [n for n in walk_local(fn) if isinstance(n, ast.If) and norm(n.test) == 'new_mode != self.mode']
